@@ -1,6 +1,6 @@
 """C15 — refining structure (split_child_at, sequentialize) does not move content; extend_until pads with rest."""
 from props.m1common import *  # noqa: F401,F403
-from props.m1common import g, sp, sx, rng_for, is_err, compare_result, shrink_tree
+from props.m1common import alias_failure, g, sp, sx, rng_for, is_err, compare_result, shrink_tree
 
 PID = "C15"
 RUNNER = "impl_m1.py"
@@ -14,7 +14,7 @@ LEVEL_RULE = ("three case kinds in equal shares. split_child_at: random sequence
               "and above the duration (about 30 % no-op targets for the idempotence clause), empty simultaneities. non-trivial = "
               "the call succeeds and: the time lies strictly inside a leaf of a nested (depth >= 2) child / voice (split_child_at); the "
               "result has at least two slices and the receiver at least two voices (sequentialize); at least one voice or the "
-              "sequence is really extended and the receiver has depth >= 2 content (extend_until)")
+              "sequence is really extended and the receiver has depth >= 2 content (extend_until). The value returned by sequentialize is also walked for events / Duration objects shared with the receiver (a shared object is demonstrated by editing the receiver in place and reading the returned value again)")
 ASSUMPTIONS = ASSUMPTIONS_M1
 TRUSTED = TRUSTED_M1
 
@@ -180,6 +180,8 @@ def oracle_sequentialize(t, io):
         return None
     if is_err(io):
         return f"sequentialize rejected with {io[1]}"
+    if alias_failure(io):
+        return alias_failure(io)
     r = sp.norm(io[1])
     recv = [e for e in io[2:] if e and e[0] == "recv"]
     if not recv or sp.norm(recv[0][1]) != t:
